@@ -75,6 +75,39 @@ def main():
             evs = evs + evs2
             rels = [{"rel": "same_on" if online else "same_off", "x": 1, "y": 2}]
         cases.append(case(objs, evs, rels, skip=["evaluate.viol"]))
+    # ---- dense time: offline evaluate() and online update() (single batch) under the 5 semantics
+    dcases = []
+    for i in range(n // 3):
+        S = rng.choice([1, 1, 2])
+        vs = list(rng.choice([("x",), ("x", "y")]))
+        sem = rng.choice(SEMS)
+        io = {v: rng.choice(["input", "output"]) for v in vs}
+        online = rng.random() < 0.5
+        ops = ["not", "and", "or", "implies", "once", "hist", "since", "onceT", "histT"]
+        if not online:
+            ops += ["ev", "alw", "until", "evT", "alwT"]
+        g = Gen(rng, vars_=vs, S=S, ops=ops, ivs=[(0, 1), (1, 2), (0, 3)])
+        def atom(g=g):
+            for _ in range(20):
+                a = ia_atoms(rng, g)
+                if vars_of(a):            # constant-only predicates: known finding F-05b online; keep them to the discrete part
+                    return a
+            return a
+        g.atom = atom
+        phi = g.formula(rng.choice([0, 1, 1, 2]))
+        if not vars_of(phi):
+            continue
+        vs = vars_of(phi)
+        io = {v: io.get(v, "output") for v in vs}
+        end = rng.choice([3, 5, 8])
+        w = {v: gen_signal(rng, rng.choice([2, 3, 4]), t0=0, S=S, end=end, lo=-2, hi=3) for v in vs}
+        o = ct_obj(phi, S, vs, factory="StlDenseTimeSpecification", mode={"sem": sem, "io": io}, set_io=True)
+        evs = [ev_parse(), ev_ct("update" if online else "evaluate", w)]
+        dcases.append(case([o], evs, kind="ct_on" if online else "ct_off"))
+    dtr = runner.run_cases(dcases)
+    dvs, dgen, ddist = core.validate("C06_dense", dtr, module="TraceCt")
+    rep.add_traces(dtr, dvs, dgen, ddist, nontrivial_key=lambda c: c["objs"][0]["text"] + str(c["objs"][0]["mode"]) + str(c["events"][-1]["w"]))
+    rep.extra["dense_cases"] = {k: sum(1 for c in dcases if c["kind"] == k) for k in ("ct_on", "ct_off")}
     traces = runner.run_cases(cases)
     vs_, gen, dist = core.validate("C06", traces)
     rep.add_traces(traces, vs_, gen, dist, nontrivial_key=lambda c: c["objs"][0]["text"] + str(c["objs"][0]["mode"]) + str(c["events"][-1].get("w", c["events"][-1].get("s"))))
